@@ -314,6 +314,18 @@ func cloneEventHooks() *sync.Map {
 	return c
 }
 
+// removeEventHooksNotIn deletes the event hooks whose names are not keys of
+// keep. It is used to drop the hooks that a configuration registered while it
+// was being set up when that configuration then fails to load.
+func removeEventHooksNotIn(keep *sync.Map) {
+	eventHooks.Range(func(k, _ interface{}) bool {
+		if _, ok := keep.Load(k); !ok {
+			eventHooks.Delete(k)
+		}
+		return true
+	})
+}
+
 // purgeEventHooks purges all event hooks from the map
 func purgeEventHooks() {
 	eventHooks.Range(func(k, _ interface{}) bool {
